@@ -10,8 +10,13 @@ void harness(void) {
   uint8_t d[LEN + 1], m[LEN + 1], out[CAP], m2[CAP];
   in_bytes(d, LEN);
   in_bytes(m, LEN);
+#ifdef HM /* optional case split: HM = has_mask, FL = flags as cells */
+  uint32_t has_mask = HM;
+  uint64_t flags = FL;
+#else
   uint32_t has_mask = in_bool();
   uint64_t flags = in_bool();
+#endif
   int64_t ml = -1000;
   int64_t r = w_ds_roundtrip(d, LEN, m, has_mask, flags, out, CAP, m2, &ml);
   OBS(r); OBS(ml);
